@@ -418,6 +418,7 @@ type Contract struct {
 	Name      string // qualified name as written
 	Requires  []Clause
 	Ensures   []Clause
+	AssumedEnsures []Clause
 	Loops     map[int]*LoopSpec
 	CallAsserts []CallAssert
 	Frame     []string // nil = unspecified (everything for unknown); ["nothing"]; heap names
@@ -545,6 +546,16 @@ func parseContractFile(path, pkg string) (*ContractFile, error) {
 			cf.SMT = append(cf.SMT, rest)
 		case "import":
 			cf.Imports = append(cf.Imports, rest)
+		case "assume-ensures":
+			// assumed at call sites, not checked against the body (listed in the trusted base)
+			c, err := mk(rest, ln.no)
+			if err != nil {
+				return nil, err
+			}
+			if cur == nil {
+				return nil, fmt.Errorf("%s:%d: clause outside block", path, ln.no)
+			}
+			cur.AssumedEnsures = append(cur.AssumedEnsures, c)
 		case "requires", "ensures":
 			c, err := mk(rest, ln.no)
 			if err != nil {
